@@ -525,6 +525,12 @@ func (g *ubjGen) containerBody(obj bool, depth int) val.V {
 	}
 	for i := 0; i < n; i++ {
 		if obj {
+			if mode != 2 && g.o.Noops {
+				// no-ops between members (where the next key is expected)
+				for r.P(1, 6) {
+					g.b = append(g.b, 'N')
+				}
+			}
 			k := markerLen(r, Key(r, true))
 			g.str(k)
 			out.Keys = append(out.Keys, k)
@@ -550,7 +556,7 @@ func (g *ubjGen) containerBody(obj bool, depth int) val.V {
 		out.A = append(out.A, v)
 	}
 	if mode == 0 {
-		if !obj && g.o.Noops {
+		if g.o.Noops {
 			for r.P(1, 5) {
 				g.b = append(g.b, 'N')
 			}
